@@ -84,7 +84,32 @@ func (e *Env) resolveType(s string) (types.Type, string) {
 		}
 		return nil, "(Array Int " + srt + ")"
 	}
+	if strings.HasPrefix(s, "map[") {
+		// spec-level total map: map[K]V -> (Array K V)
+		depth := 0
+		for i := 3; i < len(s); i++ {
+			if s[i] == '[' {
+				depth++
+			}
+			if s[i] == ']' {
+				depth--
+				if depth == 0 {
+					kt, ks := e.resolveType(s[4:i])
+					if kt != nil {
+						ks = e.fg.sorts.sortOf(kt)
+					}
+					vt, vs := e.resolveType(s[i+1:])
+					if vt != nil {
+						vs = e.fg.sorts.sortOf(vt)
+					}
+					return nil, "(Array " + ks + " " + vs + ")"
+				}
+			}
+		}
+	}
 	switch s {
+	case "Bytes":
+		return nil, "Bytes"
 	case "Bool":
 		return nil, "Bool"
 	case "Int":
@@ -461,6 +486,9 @@ func (e *Env) binary(x *SExpr) Val {
 				t = fmt.Sprintf("(= (s.arr %s) 0)", a.T)
 			}
 		}
+		if t == "" && a.Ty == nil && a.Sort == "Bytes" {
+			t = fmt.Sprintf("(bytes.eq %s %s)", a.T, b.T)
+		}
 		if t == "" {
 			t = fmt.Sprintf("(= %s %s)", a.T, b.T)
 		}
@@ -494,6 +522,19 @@ func (e *Env) binary(x *SExpr) Val {
 func (e *Env) selVal(x *SExpr, a Val, name string) Val {
 	fg := e.fg
 	if a.Ty == nil {
+		if a.Sort == "Int" {
+			if ty, ok := fg.g.ct.GhostFields["any."+name]; ok {
+				t, srt := e.resolveType(ty)
+				if t != nil {
+					srt = e.sorts().sortOf(t)
+					fg.heapTy["G_any_"+sanitize(name)] = t
+				}
+				fam := "G_any_" + sanitize(name)
+				fg.heapSort[fam] = "(Array Int " + srt + ")"
+				l := &Loc{Kind: LGhost, Heap: fam, Ref: a.T, Ty: t, GSort: srt}
+				return Val{T: fg.load(e.st, l), Ty: t, Sort: srt}
+			}
+		}
 		e.fail(x, "selection on spec sort")
 	}
 	// ghost fields
@@ -793,6 +834,36 @@ func (e *Env) call(x *SExpr) Val {
 				a := e.tr(x.Args[0])
 				t, _ := e.resolveType(x.Args[1].String())
 				return boolVal(fmt.Sprintf("(= (i.tag %s) %s)", a.T, e.sorts().typeTag(t)))
+			case "bytesOf":
+				a := e.tr(x.Args[0])
+				if a.sortIn(e.sorts()) == "Str" {
+					fg.declareFun("bytes.ofstr", []string{"Str"}, "Bytes")
+					if !fg.declSet["ax.bytes.ofstr"] {
+						fg.declSet["ax.bytes.ofstr"] = true
+						fg.decls = append(fg.decls, "(assert (forall ((s Str)) (! (= (blen (bytes.ofstr s)) (strlen s)) :pattern ((bytes.ofstr s)))))")
+						fg.decls = append(fg.decls, "(assert (forall ((s Str) (i Int)) (! (=> (and (<= 0 i) (< i (strlen s))) (= (bat (bytes.ofstr s) i) (strat s i))) :pattern ((bat (bytes.ofstr s) i)))))")
+					}
+					return Val{T: fmt.Sprintf("(bytes.ofstr %s)", a.T), Sort: "Bytes"}
+				}
+				if a.sortIn(e.sorts()) != "Slice" {
+					e.fail(x, "bytesOf needs a byte slice")
+				}
+				fam, srt := fg.elemFamily(types.Typ[types.Uint8])
+				fg.heapSort[fam] = srt
+				return Val{T: fmt.Sprintf("(bytes.of (select %s (s.arr %s)) (s.off %s) (s.len %s))", fg.heap(e.st, fam, srt), a.T, a.T, a.T), Sort: "Bytes"}
+			case "seqBytes":
+				// seqBytes(d, lo, n): the n bytes of sequence d from position lo
+				d := e.tr(x.Args[0])
+				lo := e.tr(x.Args[1])
+				n := e.tr(x.Args[2])
+				return Val{T: fmt.Sprintf("(bytes.of %s %s %s)", d.T, lo.T, n.T), Sort: "Bytes"}
+			case "blen":
+				a := e.tr(x.Args[0])
+				return intVal(fmt.Sprintf("(blen %s)", a.T))
+			case "bat":
+				a := e.tr(x.Args[0])
+				i := e.tr(x.Args[1])
+				return intVal(fmt.Sprintf("(bat %s %s)", a.T, i.T))
 			case "unfold":
 				return e.tr(x.Args[0])
 			case "prev":
